@@ -244,6 +244,7 @@ inline void as_const(ObjBase *o) { if (o->role == ROLE_NONE) o->role = ROLE_CONS
 // object storage
 void *obj_alloc(size_t n);
 void obj_free(void *p);
+bool obj_guard_intact(const void *p);
 
 // pool management
 template <class T> BufObj<T> *add_buf(Ctx &c, void *mem);
